@@ -195,10 +195,10 @@ def d2(ctx):
                                   % (pname, n.value.id, n.attr, cq.split(".")[-1], n.attr)))
         # follow calls parse_Q(subel, X.attr)
         for n in walk_local(fi.node):
-            if isinstance(n, ast.Call) and (dotted(n.func) or "").startswith("parse_") and len(n.args) == 2 and isinstance(n.args[1], ast.Attribute) \
+            if isinstance(n, ast.Call) and (dotted(n.func) or "").split(".")[-1].startswith("parse_") and len(n.args) == 2 and isinstance(n.args[1], ast.Attribute) \
                     and isinstance(n.args[1].value, ast.Name) and n.args[1].value.id in bvars:
                 n_calls += 1
-                q = dotted(n.func)
+                q = dotted(n.func).split(".")[-1]      # also `Parser.parse_x(...)` for a parser grouped into a class
                 attr = n.args[1].attr
                 meth = ctx.P.lookup_method(ctx.P.cls(cq), attr)
                 if meth is None:
